@@ -16,7 +16,7 @@ from ..corr import Case, drive
 from ..lang import N, P, Some, freeze
 from .C03 import _canon, _inv_eq, _same
 from .common import generic_replay, run_families, std_case
-from .hist import history_violation, replay_special
+from .hist import odd_equality_violation, history_violation, replay_special
 
 ASSUMPTIONS = [
     "cache wrappers are built on a faithful store (see C20)",
@@ -336,7 +336,8 @@ def wrapper_histories(tier: str, rng: random.Random):
         wraps = [("CacheV", inner), ("LazyV", N(0), False), ("OptionalV", ("NoneV", None), ("CacheV", inner)),
                  ("UnionV", [("CacheV", inner), ("NoneV", None)]), ("MaybeV", ("CacheV", inner))]
         for w in wraps:
-            seqs = list(itertools.product(alpha, repeat=2)) + rng.sample(list(itertools.product(alpha, repeat=3)), 6 if tier == "quick" else 40)
+            triples = list(itertools.product(alpha, repeat=3))
+            seqs = list(itertools.product(alpha, repeat=2)) + rng.sample(triples, min(len(triples), 6 if tier == "quick" else 40))
             for xs in seqs:
                 ops = [(rng.choice(["sync", "async"]), (("VJust", x) if w[0] == "MaybeV" else x)) for x in xs]
                 n += 1
@@ -350,6 +351,9 @@ def run(tier: str, rng: random.Random, proof_ok: bool) -> dict:
     rep = run_families("C05", cases(tier, rng), rng, oracle, nontrivial)
     rep["violations"] += check_result_map()
     rep["violations"] += check_odd_values()
+    oe = odd_equality_violation("C05")
+    if oe:
+        rep["violations"].append(oe)
     bad, n = wrapper_histories(tier, rng)
     rep["violations"] += bad
     rep["coverage"]["wrapper_histories_on_one_instance"] = n
